@@ -35,11 +35,19 @@ Shapes == {[link |-> l, ver |-> 4, vnib |-> 4, ihl |-> i, proto |-> p] : l \in {
 \* cut: bytes missing at the end of every frame that carries payload (a capture with a short snap length): the length fields of
 \* the IP header then overstate what is present; the analyzer works with the bytes that are there
 CutShapes == {[s EXCEPT !.cut = c] : s \in {[link |-> l, ver |-> v, vnib |-> v, ihl |-> 5, proto |-> 6, cut |-> 0] : l \in {"eth", "raw", "null"}, v \in {4, 6}}, c \in {1, 3}}
-ShapeSeq == SetToSeq({[link |-> s.link, ver |-> s.ver, vnib |-> s.vnib, ihl |-> s.ihl, proto |-> s.proto, cut |-> 0] : s \in Shapes} \cup CutShapes)
+\* macs: Ethernet addresses whose bytes, read at the offsets of another framing, look like an IP header (version nibble at byte 0,
+\* protocol 6 at byte 9 / next header 6 at byte 6, the 1e 00 loopback signature): the frame is Ethernet all the same
+MacPairs == <<[d |-> <<68, 168, 66, 16, 32, 48>>, s |-> <<0, 27, 33, 6, 91, 122>>],          \* 44:.. / ..:..:..:06 : raw IPv4 look-alike
+              [d |-> <<96, 1, 2, 3, 4, 5>>, s |-> <<6, 27, 33, 7, 91, 122>>],               \* 60:.. / 06:..       : raw IPv6 look-alike
+              [d |-> <<30, 0, 9, 9, 96, 9>>, s |-> <<0, 27, 33, 7, 6, 122>>],               \* 1e:00:..:..:6x / ..:06 : loopback IPv6 look-alike
+              [d |-> <<30, 0, 0, 0, 69, 0>>, s |-> <<0, 40, 0, 0, 64, 0>>]>>                \* 1e:00:00:00:45:00   : loopback IPv4 look-alike
+MacOf(s) == IF "mac" \in DOMAIN s THEN s.mac ELSE 0
+MacShapes == {[link |-> "eth", ver |-> v, vnib |-> v, ihl |-> 5, proto |-> 6, cut |-> 0, mac |-> m] : v \in {4, 6}, m \in 1..Len(MacPairs)}
+ShapeSeq == SetToSeq(MacShapes \cup {[mac |-> 0] @@ s : s \in {[link |-> s.link, ver |-> s.ver, vnib |-> s.vnib, ihl |-> s.ihl, proto |-> s.proto, cut |-> 0] : s \in Shapes} \cup CutShapes})
 
 Base(s, rev) ==
   LET b == BaseHdr(s.ver) IN
-  [b EXCEPT !.ihl = s.ihl, !.vnib = s.vnib, !.proto = s.proto, !.src = IF rev THEN b.dst ELSE b.src, !.dst = IF rev THEN b.src ELSE b.dst,
+  [b EXCEPT !.ihl = s.ihl, !.vnib = s.vnib, !.dmac = IF MacOf(s) = 0 THEN b.dmac ELSE MacPairs[MacOf(s)].d, !.smac = IF MacOf(s) = 0 THEN b.smac ELSE MacPairs[MacOf(s)].s, !.proto = s.proto, !.src = IF rev THEN b.dst ELSE b.src, !.dst = IF rev THEN b.src ELSE b.dst,
             !.sport = IF rev THEN 80 ELSE 40000, !.dport = IF rev THEN 40000 ELSE 80]
 Seg(s, rev, flags, seqlo, payload) == [Base(s, rev) EXCEPT !.flags = flags, !.seq = <<0, 0, 0, seqlo>>, !.ack = IF flags = SYN THEN Zero4 ELSE <<0, 0, 0, 9>>, !.payload = payload]
 
